@@ -204,7 +204,9 @@ def make_field(eng, st, iface, cls, name, f):
         return VDyn(v)
     if k == 'func' or k == 'funcornone':
         ident = fresh('fn_' + name, t.INT)
-        return VFunc('self.' + name, model=('model', lambda m, e, a, kw, s, n, _i=ident, _r=f.kw.get('returns', 'dyn'): iface.user_function(e, _i, _r, a, kw, s)))
+        fv = VFunc('self.' + name, model=('model', lambda m, e, a, kw, s, n, _i=ident, _r=f.kw.get('returns', 'dyn'): iface.user_function(e, _i, _r, a, kw, s)))
+        fv.ident = ident          # contracts name the function's results through fn_bytes_arr/fn_bytes_len/fn_val(ident, ...)
+        return fv
     if k == 'map':
         m = iface.new_map(eng, st, name, f.kw.get('values', 'dyn'))
         m.keys = f.kw.get('keys', 'dyn')
